@@ -17,7 +17,7 @@ ASSUMPTIONS = [
     "'validates against its own checksum' = str(parser) with a line number, re-parsed by a fresh parser, passes validate()",
 ]
 
-ALPHABET = "GMTNXYZEFgmtnxyz0123456789+-. *;\\\r\n\t:@#(=é"
+ALPHABET = "GMTNXYZEFgmtnxyz0123456789+-. *;\\\r\n\t:@#(=é\x0b\x0c\x1c\x85\xa0\u2028\x00"
 free_text = st.text(alphabet=ALPHABET, max_size=60)
 
 lead = st.sampled_from(["", "", "", " ", "  ", "   "])
